@@ -102,7 +102,7 @@ PROPS = {
         [job("main", "^TestC11$", q=4, th=16)]),
 
     "C12": P("Worker pool", "exploration",
-        "cases = WorkerPool scenarios in a bubble: every size -1..16 x {0,1,5w+3 tasks, three submitters} x gated/timed x two Wait rounds; rapid: sizes -1..16, 0..500 tasks, 1..4 submitters, 1..3 Submit/Wait rounds, gated release orders or random virtual durations, a late submitter adding tasks while Wait is in progress, a second goroutine in Wait at the same time, occasional long tasks; the same under the race detector with tasks doing plain writes read after Wait; "
+        "cases = WorkerPool scenarios in a bubble: every size -1..16 x {0,1,5w+3 tasks, three submitters} x gated/timed x two Wait rounds; rapid: sizes -1..16, 0..500 tasks, 1..4 submitters, 1..3 Submit/Wait rounds, gated release orders or random virtual durations, a late submitter adding tasks while Wait is in progress, occasional long tasks; the same under the race detector with tasks doing plain writes read after Wait; "
         "non-trivial = tasks>3*workers (queue overflows) or >=2 submitters or >=2 rounds",
         "oracle: every task counter == 1; at every quiescent point a goroutine blocked in Wait() has not returned while a submitted task is unfinished; plain writes visible after Wait (race detector: happens-before); after Close the bubble ends clean (a surviving worker = 'blocked goroutines remain' panic); lost task = deadlock panic",
         "schedule exploration in deterministic bubbles + race-detector run",
